@@ -4,14 +4,15 @@ property, restore /repo.  Every alarm is a false alarm to look at (or shows that
 after all).  Writes benign/RESULTS.md.  Never commits anything to /repo."""
 import subprocess, sys, os
 ROOT = os.path.dirname(os.path.dirname(os.path.abspath(__file__)))
+REPO = os.environ.get('VERIF_REPO', '/repo')   # a scratch clone may stand in for /repo (with a scratch copy of /verif)
 props = ['C%02d' % i for i in range(1, 21)]
 rows = []
 for name in sys.argv[1:]:
     d = os.path.join(ROOT, 'benign', name)
-    st = subprocess.run(['git', '-C', '/repo', 'status', '--porcelain'], capture_output=True, text=True).stdout.strip()
+    st = subprocess.run(['git', '-C', REPO, 'status', '--porcelain'], capture_output=True, text=True).stdout.strip()
     if st:
         print('refusing: /repo has local modifications'); sys.exit(2)
-    subprocess.run(['git', '-C', '/repo', 'apply', os.path.join(d, 'patch.diff')], check=True)
+    subprocess.run(['git', '-C', REPO, 'apply', os.path.join(d, 'patch.diff')], check=True)
     alarms = {}
     try:
         for p in props:
@@ -22,8 +23,8 @@ for name in sys.argv[1:]:
                 first = [l for l in o.splitlines() if 'failing case' in l or 'no longer checks' in l or 'BROKEN' in l][:2]
                 alarms[p] = (v[0] if v else 'rc=%d' % r.returncode, ' / '.join(x[:300] for x in first))
     finally:
-        subprocess.run(['git', '-C', '/repo', 'checkout', '--', '.'], check=True)
-        subprocess.run(['git', '-C', '/repo', 'clean', '-fdq'], check=True)
+        subprocess.run(['git', '-C', REPO, 'checkout', '--', '.'], check=True)
+        subprocess.run(['git', '-C', REPO, 'clean', '-fdq'], check=True)
     rows.append((name, alarms))
     print(name, sorted(alarms) or 'quiet', flush=True)
     for p, (v, f) in alarms.items():
